@@ -20,6 +20,7 @@ import (
 var crashPoints = map[string][]string{
 	"store":   {"store.locked", "store.built", "store.idcommitted", "store.committed", "store.metaupdated"},
 	"reject":  {"store.locked"},
+	"backup":  {"backup.tmpcreated", "backup.written", "backup.renamed"},
 	"txn":     {"txn.locked", "txn.built", "txn.idcommitted", "txn.committed", "store.committed"},
 	"create":  {"dsm.create.idpersisted", "dsm.create.recordstored", "store.idcommitted", "store.committed", "dsm.create.metastored"},
 	"delete":  {"dsm.delete.begin", "dsm.delete.setpersisted", "store.committed", "dsm.delete.metadeleted"},
@@ -287,6 +288,71 @@ func TestCrash(t *testing.T) {
 							}
 						} else {
 							outcome = "before"
+						}
+					}
+				}
+				if len(r.Divs) == 0 && r.Err == "" && last.A == "backup" {
+					// a backup run was killed.  (1) The location, as the kill left it, restores to the state of the
+					// last COMPLETED run or of the killed one (if it got as far as putting its snapshot in place);
+					// (2) the next run succeeds and the location then restores to the hub as it is now.
+					mk := func() *Session {
+						bs := NewSession(w, hdr, cs.Tag, tb, GoAdapter{})
+						bs.NoAt = true
+						bs.clock = b.Obs.Clock
+						for len(bs.after) <= b.Obs.Clock {
+							bs.after = append(bs.after, spinUntilAfter(bs.after[len(bs.after)-1]))
+						}
+						return bs
+					}
+					bs := mk()
+					if _, serr := os.Stat(filepath.Join(bs.BackupDir(), "datahub-backup.kv")); serr == nil {
+						var cands []*Obs
+						for i := len(b.Steps) - 1; i >= 0 && len(cands) < 2; i-- {
+							if b.Steps[i].A == "backup" && b.Steps[i].Obs != nil {
+								cands = append(cands, b.Steps[i].Obs)
+							}
+						}
+						var firstDivs []Divergence
+						okAny := false
+						for _, c := range cands {
+							cs2 := mk()
+							cs2.clock = c.Clock
+							if rerr := cs2.restoreAndCompare(c); rerr != nil {
+								cs2.diverge("restore-after-kill", nil, "the location restores", rerr.Error(), "")
+							}
+							sum.Checks += cs2.Checks
+							if len(cs2.Divs) == 0 {
+								okAny = true
+								break
+							}
+							if firstDivs == nil {
+								firstDivs = cs2.Divs
+							}
+						}
+						if !okAny && len(firstDivs) > 0 {
+							d := firstDivs[0]
+							d.Note = "backup location as the killed run left it: neither the previous completed run nor the killed one; " + d.Note
+							r.Divs = append(r.Divs, d)
+						}
+					}
+					if len(r.Divs) == 0 {
+						func() {
+							defer func() {
+								if rec := recover(); rec != nil {
+									bs.diverge("backup-after-kill", nil, "the next backup run succeeds", fmt.Sprint(rec), "")
+								}
+							}()
+							if berr := bs.backup(); berr != nil {
+								bs.diverge("backup-after-kill", nil, "the next backup run succeeds", berr.Error(), "")
+							} else if rerr := bs.restoreAndCheck(&b.Obs); rerr != nil {
+								bs.diverge("backup-after-kill", nil, "the location restores", rerr.Error(), "")
+							}
+						}()
+						sum.Checks += bs.Checks
+						for _, d := range bs.Divs {
+							d.Note = "after a killed backup run, restart and one more run; " + d.Note
+							r.Divs = append(r.Divs, d)
+							break
 						}
 					}
 				}
